@@ -159,6 +159,54 @@ def run(prog, ctx):
                 res.undecided += 1
     res.rule("C06.K", n_k, 1, "reduce_k call sites")
 
+    # ---------------- C06.E an empty input is a no-op: the result folds to the smallest lg_k among the union and the NON-EMPTY inputs,
+    # so nothing that changes the union (a call handed `&mut self` or a part of it, a store through self) may be reached when the
+    # source holds no coupons, whatever its lg_k.  By value: the exact path conditions of each such site under an empty source.
+    su = Sym(prog, upd)
+    n_e = 0
+    src_idx = 2
+    mut_sites = []
+    for b, site in upd.calls():
+        for a in site["args"]:
+            pl = ir.op_place(a)
+            if pl is None:
+                continue
+            ty = ir.pl_ty(upd, pl) or ""
+            if not ty.startswith("&mut "):
+                continue
+            e = su.operand(a)
+            if (e[0] == "param" and e[1] == 1) or sym.contains(e, lambda t: t[0] == "field" and t[1][0] == "param" and t[1][1] == 1):
+                mut_sites.append((b, (site.get("callee") or "indirect").rsplit("::", 1)[-1], site.get("span")))
+                break
+    for (ff, bb, kind, place, rv, span, adt, fld) in sym.field_stores(prog, adt=U, fns=[upd]):
+        if kind != "agg":
+            mut_sites.append((bb, "store to self.%s" % fld, span))
+    for b, what, span in mut_sites:
+        if what in ("deref_mut", "as_mut", "borrow_mut"):
+            continue
+        pp = C.path_pred(su, b)
+        verdict, wit = None, ""
+        n_ev = 0
+        for src_lg, dst_lg in ((5, 11), (11, 11), (12, 11)):
+            for un_c in (0, 3, 4000):
+                env = {"@prog": prog, "sketch.lg_k": src_lg, "sketch.num_coupons": 0, "self.lg_k": dst_lg,
+                       "self.state.lg_k": dst_lg, "self.state.num_coupons": un_c}
+                nm = upd.local_name(src_idx)
+                if nm and nm != "sketch":
+                    env.update({k.replace("sketch.", nm + ".", 1): v for k, v in list(env.items()) if k.startswith("sketch.")})
+                r = pp(env)
+                if r is None:
+                    continue
+                n_ev += 1
+                if r is True and verdict is None:
+                    verdict, wit = False, "with an empty input of lg_k %d and a union of lg_k %d" % (src_lg, dst_lg)
+        if n_ev and verdict is None:
+            verdict = True
+        n_e += 1
+        res.tri(verdict, "C06.E", "C06.E|%s" % what, "%s reaches `%s` %s: an empty input must leave the union (its lg_k in particular) "
+                "untouched" % (upd.id, what, wit), upd.id, span)
+    res.rule("C06.E", n_e, 3, "sites of CpcUnion::update that change the union")
+
     # ---------------- C06.O OR-only stores, destination mask, call-site lg agreement
     n_o = 0
     orfns = [f for f in ufns if f.kind == "fn" and any(True for _ in C.buffer_stores(prog, f)) and f.item_name.startswith("or_")]
